@@ -25,15 +25,16 @@ Inductive case :=
 | CLabels (id : N) (targets : list N) (observed : list (list N))
 (* default parameter set behaves exactly like an explicit generator seeded with [seed] *)
 | CSeed (id : N) (file type : string) (seed : N) (agrees : bool)
-(* count vectoriser (lower-casing, default tokeniser, n-grams 1..nmax, max_features = cap) fitted several
-   times on [train]: per fit the order of `vocabulary()` and the dense rows of `transform(test)` *)
-| CVocab (id : N) (nmax : N) (cap : option N) (train test : list string)
-         (fits : list (list string * list (list N))).
+(* count vectoriser (lower-casing, default tokeniser, n-grams 1..nmax, max_features = cap, document-frequency
+   window [mindf, maxdf] given as binary32 bit patterns, stop words) fitted several times on [train]:
+   per fit the order of `vocabulary()` and the dense rows of `transform(test)` *)
+| CVocab (id : N) (nmax : N) (cap : option N) (mindf maxdf : Z) (stop : option (list string))
+         (train test : list string) (fits : list (list string * list (list N))).
 
 Definition case_id (c : case) : N :=
   match c with
   | CModal id _ _ | CArgmax id _ _ | CPar id _ _ _ _ _ _ _ _ _ _ _ _ _ _ _
-  | CHier id _ _ _ | CLabels id _ _ | CSeed id _ _ _ _ | CVocab id _ _ _ _ _ => id
+  | CHier id _ _ _ | CLabels id _ _ | CSeed id _ _ _ _ | CVocab id _ _ _ _ _ _ _ _ => id
   end.
 
 Definition opt_N_eqb (a : option N) (b : N) : bool := match a with Some x => N.eqb x b | None => false end.
@@ -65,8 +66,8 @@ Definition site_fixed_seed (file ty : string) : option N :=
   end.
 
 (** vectoriser: settings, tokens, observed word -> column maps *)
-Definition vocab_settings (nmax : N) (cap : option N) : settings :=
-  mkSettings 1 (N.to_nat nmax) (b32_of_bits 0) (b32_of_bits 1065353216) None (option_map N.to_nat cap).
+Definition vocab_settings (nmax : N) (cap : option N) (mindf maxdf : Z) (stop : option (list string)) : settings :=
+  mkSettings 1 (N.to_nat nmax) (b32_of_bits mindf) (b32_of_bits maxdf) stop (option_map N.to_nat cap).
 Definition doc_tokens (d : string) : list string := tokenize (transform_string true d).
 
 Definition listnat_eqb := list_eqb Nat.eqb.
@@ -93,8 +94,13 @@ Definition run_case (c : case) : verdict :=
   match c with
   | CModal id entries impls =>
       let m := modal_class o64 entries in
+      (* the same entries as binary32 values (the weights are `f32`, shipped widened): the model at B32_ops must
+         agree, and the weights must satisfy the hypothesis of modal_class_b32_order_independent *)
+      let e32 := map (fun e => (fst e, b32_of_b64 (Prim2SF (snd e)))) entries in
+      let m32 := modal_class B32_ops e32 in
       (id,
-       ((flag (match impls with p :: _ => opt_N_eqb m p | [] => true end) 1
+       ((flag (match impls with p :: _ => opt_N_eqb m p && opt_N_eqb m32 p | [] => true end
+               && forallb (fun e => b32_finite (snd e)) e32) 1
          + flag (forallb (is_modal entries) impls) 2)%N,
         (flag (all_equal N.eqb impls) 1
          + flag (forallb (fun p => match modal_class o64 p, m with
@@ -143,8 +149,8 @@ Definition run_case (c : case) : verdict :=
        ((flag (match site_fixed_seed file ty with Some s => N.eqb s seed | None => false end) 1
          + flag agrees 2)%N,
         0%N))
-  | CVocab id nmax cap train test fits =>
-      let s := vocab_settings nmax cap in
+  | CVocab id nmax cap mindf maxdf stop train test fits =>
+      let s := vocab_settings nmax cap mindf maxdf stop in
       let tr := map doc_tokens train in
       let te := map doc_tokens test in
       (* the model run with the identity enumerations, and with each observed `vocabulary()` order replayed *)
